@@ -1,5 +1,6 @@
 import Driver.Util
 import QsmtpModel.Netio
+import QsmtpModel.Spec.Lines
 open QsmtpModel QsmtpModel.Netio
 namespace Driver.Ops.Netio
 
@@ -19,6 +20,17 @@ def handle (op : String) (args : List String) : Option String :=
       let rs := readAll (fatal == "1") [] { rest := s, cuts := c } (2 * s.length + 4)
       some (",".intercalate (rs.map rdStr))
     | _, _ => some "bad-op"
+  | "goodlines", [stream] =>
+    match fromHex stream with
+    | some s => some (",".intercalate ((goodLines s).map fun l => "L" ++ hexOrDash l))
+    | none => some "bad-op"
+  | "chk_read", [stream, lines] =>
+    -- the lines the implementation handed out for this stream (under some cut schedule) must be goodLines
+    match fromHex stream with
+    | some s =>
+      let want := ",".intercalate ((goodLines s).map fun l => "L" ++ hexOrDash l)
+      some (if want == (if lines == "-" then "" else lines) then "holds" else "fails lines-are-not-a-function-of-the-stream (specification goodLines says " ++ (want.take 120).toString ++ ")")
+    | none => some "bad-op"
   | _, _ => none
 
 end Driver.Ops.Netio
